@@ -286,7 +286,17 @@ theorem diff_hunks_strict (o : Opts) (ho : dispatchTag o = .list) :
       split
       · exact headD_listDoc hl.2
       · exact hl.1
-    · exact ihN (p ++ [.idx k]) (by rw [strictPath_snoc_idx]; exact hp) h hm
+    · -- the sub-diff went through `subAfter`: only the after-context of one hunk may have become
+      -- the next element of the source (a list document)
+      obtain ⟨h0, hm0, e1, e2, e3, e4, e5, ha⟩ := mem_subAfter' hm
+      have g := ihN (p ++ [.idx k]) (by rw [strictPath_snoc_idx]; exact hp) h0 hm0
+      have hnx := headD_listDoc hl.2
+      simp only [strictHunk, hunkListDoc, Bool.and_eq_true, Bool.not_eq_true'] at g ⊢
+      rw [e1, e2, e3, e4, e5]
+      rcases ha with ha | ha
+      · rw [ha]; exact g
+      · rw [ha]
+        exact ⟨g.1, ⟨⟨g.2.1.1, g.2.1.2⟩, by simp only [listDocList, Bool.and_true]; exact hnx⟩⟩
     · exact ihR p hp hl'.1 rfl rfl h hm
   · intro k s prev c R A x a' y b' hl hl' hA hB hs ih p hp h1 h2 h3 h hm
     rw [diffRest_cons] at hm
